@@ -100,7 +100,8 @@ func H_C09_reject() {
 		cutoff = 1.01
 	case 2:
 		tips := t2.Tips()
-		tips[sxChoose("renamed", len(tips))].SetName("zz_other")
+		// a foreign name that sorts after, or before, every taxon of the first tree
+		tips[sxChoose("renamed", len(tips))].SetName([]string{"zz_other", "a_other", "t1x"}[sxChoose("foreign", 3)])
 	case 3:
 		// the second tree lacks one taxon
 		sxAssume(n >= 4)
